@@ -107,7 +107,18 @@ func c07Run(c *core.Ctx, k c07Cfg) {
 	saml.RandReader = rnd
 	spKP := fx.K(k.spKey)
 	// --- IdP
-	w := so.NewIDPWorld()
+	// one IdP and one SP object per process, given a new configuration for every case
+	fresh := so.NewIDPWorld()
+	if c07LiveWorld == nil {
+		c07LiveWorld = so.NewIDPWorld()
+	}
+	w := c07LiveWorld
+	for id := range w.Registry {
+		delete(w.Registry, id)
+	}
+	keepSPP, keepSP := w.IDP.ServiceProviderProvider, w.IDP.SessionProvider
+	reconfigure(w.IDP, fresh.IDP)
+	w.IDP.ServiceProviderProvider, w.IDP.SessionProvider = keepSPP, keepSP
 	w.IDP.SignatureMethod = k.method
 	w.IDP.LogoutURL = mustURL(so.IDPSLO)
 	// --- SP configured from the IdP's published metadata (through text)
@@ -121,7 +132,11 @@ func c07Run(c *core.Ctx, k c07Cfg) {
 		c.Violation("C07/idp-metadata-reparse", err.Error(), string(ib))
 		return
 	}
-	sp := &saml.ServiceProvider{Key: spKP.Key, Certificate: spKP.Cert, MetadataURL: mustURL(so.SPMeta), AcsURL: mustURL(so.SPACS), SloURL: mustURL(so.SPSLO), IDPMetadata: &idpMD}
+	if c07LiveSP == nil {
+		c07LiveSP = &saml.ServiceProvider{}
+	}
+	sp := c07LiveSP
+	reconfigure(sp, &saml.ServiceProvider{Key: spKP.Key, Certificate: spKP.Cert, MetadataURL: mustURL(so.SPMeta), AcsURL: mustURL(so.SPACS), SloURL: mustURL(so.SPSLO), IDPMetadata: &idpMD})
 	if k.noCert {
 		sp.Certificate = nil
 	}
@@ -484,3 +499,8 @@ func charClass(s *saml.Session) string {
 	}
 	return "no-CR"
 }
+
+var (
+	c07LiveWorld *so.IDPWorld
+	c07LiveSP    *saml.ServiceProvider
+)
